@@ -15,7 +15,7 @@ from ..gen import steps as ST
 from ..gen import tables as T
 from ..seams import faults as F
 
-KINDS = ['concatenate', 'duplicate', 'delete_resource', 'iterable', 'update_resource']
+KINDS = ['concatenate', 'duplicate', 'delete_resource', 'iterable', 'update_resource', 'sources', 'load_tuple']
 
 
 def model(tables, steps):
@@ -53,6 +53,12 @@ def model(tables, steps):
             st = [x for x in st if x[0] not in sel]
         elif s == 'iterable':
             st = st + [['res_%d' % (len(st) + 1), [{'_id': r[0], 'a': r[1]} for r in sp['rows']]]]
+        elif s == 'sources':
+            # sources() runs each of its data sources as an own little flow: their resources are named res_1.. inside it
+            for j, rows in enumerate(sp['tables']):
+                st = st + [['res_1', [{'_id': r[0], 'a': r[1]} for r in rows]]]
+        elif s == 'load_tuple':
+            st = st + [[sp['name'], [{'_id': r[0], 'a': r[1]} for r in sp['rows']]]]
         elif s == 'update_resource':
             sel = select(sp['resources'], names)
             if 'name' in sp['props']:
@@ -85,9 +91,13 @@ def _expand(payload, sub):
                 k = rng.choice(cand)
                 del sp['fields'][k]
                 sp['fields']['m_' + k] = [k]
+    # sources() names the resources of each of its data sources res_1 (duplicate names are C02's business): placed last only
+    sc['steps'] = [sp for sp in sc['steps'] if sp['step'] != 'sources']
+    if rng.random() < 0.15:
+        sc['steps'].append(ST.gen_sources(rng, ST.D({'resources': []}), ST.G()))
     # a concatenation that does not carry the provenance id: rows whose mapped cells are all null are legal data too
     for sp in sc['steps']:
-        if sp['step'] == 'concatenate' and sp is sc['steps'][-1] and len(sp['fields']) > 1 and rng.random() < payload.get('noid_p', 0.12):
+        if sp['step'] == 'concatenate' and sp is [x for x in sc['steps'] if x['step'] != 'sources'][-1] and len(sp['fields']) > 1 and rng.random() < payload.get('noid_p', 0.12):
             sp['fields'].pop('_id', None)
     try:
         PL.describe(sc, {'calls': {}})
@@ -123,7 +133,7 @@ class C16(Prop):
     ASSUMPTIONS = ['the placement model (dfsim/props/c16.py:model) is the documented semantics: first-selected position for concatenate, right-after / end for duplicate, append for new sources',
                    'sqlite below KVFile is real and fault-free here']
     REAL_VS_STUB = {'real': ['dataflows concatenate / duplicate / delete_resource / iterable_loader / update_resource', 'kvfile + sqlite'], 'stub': ['KVFile twin only sets the cache-size knob and counts operations']}
-    PROBES = ['duplicate-spilled-to-disk', 'concatenate-with-rename', 'delete-after-duplicate', 'empty-resource', 'big-resource', 'duplicate-to-end', 'iterable-appended', 'concat-then-delete', 'concatenate-without-id-field']
+    PROBES = ['duplicate-spilled-to-disk', 'concatenate-with-rename', 'delete-after-duplicate', 'empty-resource', 'big-resource', 'duplicate-to-end', 'iterable-appended', 'concat-then-delete', 'concatenate-without-id-field', 'sources-appended', 'load-tuple-appended']
     TIERS = {'quick': dict(runs=800, wall=100, run_wall=120),
              'thorough': dict(runs=25000, wall=1700, run_wall=300)}
     SHRINK_FROZEN = ('fields_', 'gen_stats')
@@ -165,6 +175,10 @@ class C16(Prop):
                 ctx.probe('concatenate-with-rename')
             if sp['step'] == 'iterable':
                 ctx.probe('iterable-appended')
+            if sp['step'] == 'sources':
+                ctx.probe('sources-appended')
+            if sp['step'] == 'load_tuple':
+                ctx.probe('load-tuple-appended')
             if sp['step'] == 'concatenate' and '_id' not in sp['fields']:
                 ctx.probe('concatenate-without-id-field')
         if 'duplicate' in kinds and 'delete_resource' in kinds[kinds.index('duplicate'):]:
